@@ -386,7 +386,7 @@ def r5(ctx):
     if ab is not None:
         cs = ab.calls(r'path::Path::canonicalize$')
         ctx.check(len(cs) >= 2, rule, ab.path, ab.where(), 'scanned paths: parent (files) or whole path (dirs) canonicalised', 'Walk::absolute does not canonicalise')
-    rn = lib.body("walk::Walk::<'a>::run::{closure#0}")
+    rn = next((lib.body(c) for c in lib.closures_of("walk::Walk::<'a>::run") if lib.body(c).calls(r"Walk::<'a>::absolute$")), None) or lib.body("walk::Walk::<'a>::run::{closure#0}")
     if rn is not None:
         c = rn.calls(r"Walk::<'a>::absolute$")
         ctx.check(bool(c), rule, rn.path + '|roots-absolute', rn.where(), 'every root passes Walk::absolute', 'roots are not normalised by Walk::absolute')
